@@ -206,8 +206,9 @@ def typecheck(hist):
             need(dst not in env and t[0] == "map")
             for kk, e in kvs:
                 need(lit_fits(kk, t[1]) and operand_type_ok(env, e, t[2]))
-                # the compiler rejects a non-nil value in a literal of an optional-valued map
-                need(t[2][0] != "opt" or (e[0] == "L" and e[1] is None))
+                # a literal of an optional-valued map takes `nil` and present values alike (as `m[k] = v`, `replace` and a
+                # list literal of the same element type do): the values are literals here
+                need(t[2][0] != "opt" or e[0] == "L")
             env[dst] = t
         elif k in ("mget", "mremove", "haskey"):
             need(lit_fits(op[2], mapt(op[1])[1]))
@@ -939,7 +940,7 @@ class Gen:
             kvs = []
             if not empty:
                 for _ in range(rng.choice([1, 2, 3])):
-                    o = self.operand(t[2], st, in_literal=True) if t[2][0] != "opt" else ("L", None)
+                    o = self.operand(t[2], st, in_literal=True) if t[2][0] != "opt" else ("L", rand_scalar(rng, t[2]))
                     if o is not None:
                         kvs.append((rand_scalar(rng, t[1], small=True), o))
             self.add(("maplit", dst, t, kvs))
@@ -1179,7 +1180,21 @@ def fixed_histories():
          ("newvec", 6, L, []), ("iwrite", 0, 0, ("V", 6)), ("print", 2)],
         [("maplit", 0, mp(STR, opt(INT)), []), ("mset", 0, s("a"), ("L", None)), ("mget", 0, s("a")), ("haskey", 0, s("a")), ("haskey", 0, s("b")), ("replace", 0, s("a"), ("L", 5)),
          ("values", 0), ("mclear", 0), ("keys", 0)],
-    ]
+    ] + optional_literal_histories()
+
+
+def optional_literal_histories():
+    """the LITERAL of a map whose values are optional holds present values and nil, like every other way into that map"""
+    s = lambda x: ("s", x)
+    out = []
+    for t, k1, k2, k3, a, b in ((mp(STR, opt(INT)), s("a"), s("b"), s("c"), 1, 2), (mp(INT, opt(STR)), 0, -1, 7, s("x"), s("")),
+                                (mp(STR, opt(STR)), s(""), s("k"), s("é"), s("nil"), s("v")), (mp(INT, opt(INT)), 3, 4, 5, 0, -7)):
+        out.append([("maplit", 0, t, [(k1, ("L", a)), (k2, ("L", None))]), ("mget", 0, k1), ("mget", 0, k2), ("mget", 0, k3), ("mlen", 0), ("haskey", 0, k2),
+                    ("values", 0), ("pairs", 0)])
+        out.append([("maplit", 0, t, [(k1, ("L", a))]), ("alias", 1, 0), ("mclone", 2, 0), ("mset", 1, k2, ("L", b)), ("replace", 2, k1, ("L", None)),
+                    ("mget", 0, k2), ("mget", 2, k1), ("mget", 0, k1), ("mremove", 0, k1), ("mlen", 1), ("mlen", 2), ("keys", 0)])
+        out.append([("maplit", 0, t, [(k1, ("L", a)), (k1, ("L", None)), (k2, ("L", b))]), ("mget", 0, k1), ("mlen", 0), ("pairs", 0)])
+    return out
 
 
 def reuse_histories():
@@ -1301,7 +1316,7 @@ def evaluate(binary, base, exe, hists, flavours):
     impl = programs.pmap(lambda j: run_impl(binary, base, j[1]), jobs)
     out = []
     for (h, text, uni, o_obs, o_failed), (rc, so, se), m in zip(jobs, impl, model):
-        r = {"hist": h, "text": text, "rc": rc, "stdout": so, "stderr": se[-600:], "model": m, "probes": getattr(uni, "probes", {})}
+        r = {"hist": h, "text": text, "rc": rc, "stdout": so, "stderr": se[-600:], "stderr_head": (so + se)[:2000], "model": m, "probes": getattr(uni, "probes", {})}
         r["compiled"] = compiled(rc, so, se)
         got = out_lines(so)
         r["got"] = got
@@ -1405,12 +1420,23 @@ def run(ctx):
     distinct = set()
     opcount = {}
     spec_found = False
-    reported = 0
+    reported = n_optlit = 0
     which = "legacy" if legacy_mode else "fixed"
     for r, fl in zip(res, flavours):
         n_eval += 1
         for op in r["hist"]:
             opcount[op[0]] = opcount.get(op[0], 0) + 1
+        if not r["compiled"] and "This map expects values with type" in r["stderr_head"] and any(
+                op[0] == "maplit" and op[2][2][0] == "opt" and any(e[0] == "L" and e[1] is not None for _, e in op[3]) for op in r["hist"]):
+            # the literal is one of the map operations of the property: a present value of an optional-valued map
+            spec_fail += 1
+            spec_found = True
+            if n_optlit < 2:
+                ctx.report("map-literal-rejects-present-optional-value",
+                           "the literal of a map with optional values is refused as soon as it holds a present value (`m[k] = v`, `replace` and a list "
+                           "literal of the same element type accept it): %s" % [l for l in r["stderr_head"].split("\n") if "This map expects" in l][0].strip()[:200], replay_of(r))
+            n_optlit += 1
+            continue
         if not r["compiled"]:
             not_compiled += 1
             if not_compiled <= 3:
@@ -1465,6 +1491,12 @@ def run(ctx):
                            % (which, diff_msg(r.get(which + "_lines", []), r["got"]), r["model"][which]["fail"] or "ok", r["rc"]),
                            dict(replay_of(r), correspondence="Containers/Model.v step vs BuiltInFunction::run / vec_op / map_op", model=r["model"][which]),
                            found_input=False)
+    n_fkeys, bad_fkeys = check_float_keys(ctx, binary, base)
+    if bad_fkeys:
+        spec_found = True
+        spec_fail += bad_fkeys
+    n_eval += n_fkeys
+    ctx.cov["float_key_histories"] = n_fkeys
     class_mismatch = [r for r in res if r.get("compiled") and r.get(which + "_ok") and not r.get(which + "_class_ok")]
     ctx.cov["failure_class_mismatches"] = len(class_mismatch)
     ctx.cov["failure_class_mismatch_examples"] = [{"program": r["text"][-300:], "model": r["model"][which]["fail"], "rc": r["rc"], "stderr": r["stderr"][:200]}
@@ -1500,6 +1532,120 @@ def run(ctx):
     ctx.assumptions = ["Containers/Model.v is hand-written; tied to BuiltInFunction::run / vec_op / map_op / ptr_mut / bin_op_assign by this run's differential comparison of stdout and exit class",
                        "callbacks of map/filter terminate and do not touch the receiver", "gc crate (sharing, collection) is modelled as an immutable heap map"]
     core.proof_or_search(ctx, ok, ["C13_containers_refine"], spec_found)
+
+
+# --------------------------------------------------------------------------- float keys: the two zeros are one key
+
+NEG_ZERO_RECIPES = ("zero * (-1)", "-zero", "-0.0", "zero / (-5)", "(-1.5 + 1.5) * (-1)")
+
+
+def float_key_histories(rng, n_random):
+    """operation lists over a map keyed by float (or by a list of floats): `0.0 == -0.0` in the language, so the finite map of
+    the property has ONE entry for the two zeros however -0.0 came about; 1.5 and -1.5 stay two keys"""
+    fixed = [
+        [("set", "zero", 1), ("get", "neg"), ("has", "neg"), ("set", "neg", 2), ("len",), ("get", "zero"), ("nkeys",)],
+        [("set", "neg", 1), ("get", "zero"), ("has", "zero"), ("replace", "zero", 2), ("len",), ("remove", "zero"), ("len",), ("has", "neg")],
+        [("set", "zero", 1), ("replace", "neg", 2), ("len",), ("remove", "neg"), ("len",), ("set", "neg", 5), ("opadd", "zero", 1), ("len",), ("get", "neg")],
+        [("set", "p", 1), ("set", "q", 2), ("get", "p"), ("get", "q"), ("len",), ("set", "zero", 3), ("set", "neg", 4), ("len",), ("remove", "p"), ("has", "q"), ("nkeys",)],
+        [("lit", "zero", 7), ("get", "neg"), ("has", "neg"), ("remove", "neg"), ("len",)],
+    ]
+    hists = [(h, kind, r) for h in fixed for kind in ("float", "list") for r in range(len(NEG_ZERO_RECIPES))
+             if kind == "float" or r < 2]
+    for _ in range(n_random):
+        h = []
+        present = set()
+        for _ in range(rng.randint(3, 10)):
+            k = rng.choice(["zero", "neg", "neg", "zero", "p", "q"])
+            canon = "zero" if k == "neg" else k
+            o = rng.choice(["set", "set", "get", "has", "replace", "remove", "len", "opadd", "nkeys"])
+            if o == "opadd" and canon not in present:
+                o = "get"
+            if o in ("set", "replace"):
+                present.add(canon)
+            if o == "remove":
+                present.discard(canon)
+            h.append((o,) if o in ("len", "nkeys") else (o, k, rng.randint(-9, 9)) if o in ("set", "replace", "opadd") else (o, k))
+        hists.append((h, rng.choice(["float", "list"]), rng.randrange(len(NEG_ZERO_RECIPES))))
+    return hists
+
+
+def float_key_program(h, kind, recipe):
+    """-> (program text, expected stdout lines) by the finite-map reading (a Python dict: 0.0 and -0.0 are one key there too)"""
+    val = {"zero": 0.0, "neg": -0.0, "p": 1.5, "q": -1.5}
+    lines = ["zero = 0.0", "neg = %s" % NEG_ZERO_RECIPES[recipe], "p = 1.5", "q = -1.5", "print zero == neg"]
+    exp = ["true"]
+    if kind == "list":
+        for n in ("zero", "neg", "p", "q"):
+            lines.append("k%s: [float...] = [%s, p]" % (n, n))
+        key = lambda n: "k" + n
+        pk = lambda n: (val[n], 1.5)
+        kt = "[float...]"
+    else:
+        key = lambda n: n
+        pk = lambda n: val[n]
+        kt = "float"
+    m = {}
+    sh = lambda v: "nil" if v is None else str(v)
+    if h and h[0][0] == "lit":
+        lines.append("h = map[%s, int] { %s: %d }" % (kt, "0.0" if kind == "float" else "[0.0, 1.5]", h[0][2]))
+        m[pk("zero")] = h[0][2]
+        h = h[1:]
+    else:
+        lines.append("h = map[%s, int]" % kt)
+    for op in h:
+        o = op[0]
+        if o == "set":
+            lines.append("h[%s] = %d" % (key(op[1]), op[2]))
+            m[pk(op[1])] = op[2]
+        elif o == "get":
+            lines.append("print h[%s]" % key(op[1]))
+            exp.append(sh(m.get(pk(op[1]))))
+        elif o == "has":
+            lines.append("print h.contains_key(%s)" % key(op[1]))
+            exp.append("true" if pk(op[1]) in m else "false")
+        elif o == "replace":
+            lines.append("print h.replace(%s, %d)" % (key(op[1]), op[2]))
+            exp.append(sh(m.get(pk(op[1]))))
+            m[pk(op[1])] = op[2]
+        elif o == "remove":
+            lines.append("print h.remove(%s)" % key(op[1]))
+            exp.append(sh(m.pop(pk(op[1]), None)))
+        elif o == "opadd":
+            lines.append("h[%s] += %d" % (key(op[1]), op[2]))
+            m[pk(op[1])] += op[2]
+        elif o == "len":
+            lines.append("print h.len()")
+            exp.append(str(len(m)))
+        elif o == "nkeys":
+            lines.append("print h.keys().len() + h.values().len() + h.pairs().len()")
+            exp.append(str(3 * len(m)))
+    lines.append('print "<end>"')
+    exp.append("<end>")
+    return "\n".join(lines) + "\n", exp
+
+
+def check_float_keys(ctx, binary, base):
+    hists = float_key_histories(ctx.rng, 40 if ctx.quick() else 600)
+    jobs = [float_key_program(h, kind, r) for h, kind, r in hists]
+    res = programs.pmap(lambda j: run_impl(binary, base, j[0]), jobs)
+    bad = 0
+    for (h, kind, r), (text, exp), (rc, so, se) in zip(hists, jobs, res):
+        got = out_lines(so)
+        if rc == 0 and got == exp:
+            continue
+        bad += 1
+        if not compiled(rc, so, se):
+            ctx.report("generator:program-rejected", "a float-key program was rejected by the compiler: %s" % (so + se)[-300:],
+                       {"program": text, "stderr": (so + se)[-900:]}, found_input=False)
+            continue
+        ctx.report("map-float-key-signed-zero" if got[:1] == ["true"] else "observation-differs:float-key",
+                   "a map keyed by %s: `0.0 == -0.0` is true but the map keeps the two zeros apart (finite-map reading: one key); %s; rc %d"
+                   % ("float" if kind == "float" else "[float...]", diff_msg(exp, got), rc),
+                   {"history": h, "key_kind": kind, "negative_zero": NEG_ZERO_RECIPES[r], "program": text, "expected_stdout_lines(specification)": exp,
+                    "observed_stdout_lines": got, "observed_rc": rc, "observed_stderr_tail": se[-300:],
+                    "how": "save `program` as x.ms in an empty directory and run `mscript run x.ms -q`"})
+    return len(hists), bad
+
 
 
 def first_diff_op(r):
